@@ -722,6 +722,48 @@ def read_bytes(data: bytes) -> ReadResult:
 
 
 # ---------------------------------------------------------------------------
+# parallel evaluation of a large case list: the list stays in the parent's heap (workers get it by
+# fork); only index ranges are pickled, and the heap is frozen so that the workers' GC does not
+# copy-on-write it.  Same deterministic dealing as vmc.par (blocks are dealt round-robin).
+
+_RUN = {"cases": None, "one": None, "setup": None, "teardown": None}
+
+
+def _run_blocks(blocks):
+    from vmc.tally import Tally
+
+    t = Tally()
+    cases, one = _RUN["cases"], _RUN["one"]
+    if _RUN["setup"]:
+        _RUN["setup"]()
+    try:
+        for a, b in blocks:
+            for i in range(a, b):
+                one(cases[i], t)
+    finally:
+        if _RUN["teardown"]:
+            _RUN["teardown"]()
+    return t
+
+
+def run_cases(one, cases, tally, block=128, setup=None, teardown=None):
+    import gc
+
+    from vmc import par
+
+    _RUN.update(cases=cases, one=one, setup=setup, teardown=teardown)
+    blocks = [(i, min(i + block, len(cases))) for i in range(0, len(cases), block)]
+    gc.collect()
+    gc.freeze()
+    try:
+        par.pmap_tally(_run_blocks, blocks, tally, nchunks=par.NPROC * 4)
+    finally:
+        gc.unfreeze()
+        _RUN.update(cases=None, one=None, setup=None, teardown=None)
+    return tally
+
+
+# ---------------------------------------------------------------------------
 # independent tnetstring framing (never calls mitmproxy)
 
 TAGS = b",;#^!~]}"
@@ -774,6 +816,42 @@ def structural_positions(data: bytes) -> set[int]:
 
     walk(0, len(data))
     return out
+
+
+def tn_loads(data: bytes, pos: int = 0):
+    """independent decoder of one well-formed tnetstring -> (value, next_pos); raises ValueError otherwise"""
+    fr = frame(data, pos)
+    if fr is None:
+        raise ValueError("incomplete or invalid tnetstring at %d" % pos)
+    start, end, tag = fr
+    payload = data[start:end]
+    t = data[tag:tag + 1]
+    if t == b",":
+        v = payload
+    elif t == b";":
+        v = payload.decode("utf8")
+    elif t == b"#":
+        v = int(payload)
+    elif t == b"^":
+        v = float(payload)
+    elif t == b"!":
+        v = {b"true": True, b"false": False}[payload]
+    elif t == b"~":
+        v = None
+    elif t == b"]":
+        v = []
+        p = start
+        while p < end:
+            x, p = tn_loads(data, p)
+            v.append(x)
+    else:
+        v = {}
+        p = start
+        while p < end:
+            k, p = tn_loads(data, p)
+            x, p = tn_loads(data, p)
+            v[k] = x
+    return v, tag + 1
 
 
 def tn(value) -> bytes:
